@@ -1121,6 +1121,9 @@ fn corpus() -> Vec<(&'static str, Vec<Op>)> {
         ("chain-then-cut", p("cp 13; cg 3 13; cg 2 3; cg 1 2; rem 2 3; add 2 3; del 2; rev 2")),
         ("cycle-build-and-break", p("cg 1 -; cg 2 1; cg 3 2; add 1 3; rem 1 3; del 3")),
         ("person-revive", p("cp 13; cg 2 13; cg 1 2; del 13; rev 13")),
+        // reviving a leaf re-evaluates the built-in dynamic groups: every live leaf is recomputed,
+        // which repairs the D16 staleness of person 13
+        ("leaf-revive-refreshes-leaves", p("cp 13; cp 14; cg 1 13; del 1; del 14; rev 1; rev 14")),
         ("self-member", p("cg 1 1; cg 2 1; rem 1 1; del 2")),
         ("delete-two", p("cp 13; cg 3 13; cg 2 3; cg 1 2,3; del 2,3; rev 3; rev 2")),
     ]
